@@ -170,6 +170,42 @@ SENTINELS = 1 * 2 + 2 * 2 + 2 * 2 + 2 * 2 + 1 * 2 + 2 * 2      # L M U H S Q (tw
 
 
 # ---- the reference: abstract values with as-if-copied semantics -------------------------------------
+def quicksort_ref(vals, bits):
+    """List::sort() as List.hpp writes it (quicksort on the nodes; swap = exchange of the values through a temporary), re-implemented
+    for the reference: returns the number of swap calls; `bits` = dictated outcomes of the first comparisons (L.sortwith)"""
+    bits = list(bits)
+    swaps = [0]
+
+    def less(a, b):
+        return bits.pop(0) if bits else a < b
+
+    def swap(i, j):
+        vals[i], vals[j] = vals[j], vals[i]
+        swaps[0] += 1
+
+    def sort(left, right):
+        p0 = p1 = p2 = left
+        while True:
+            p2 += 1
+            if less(vals[p2], vals[left]):
+                p0 = p1
+                p1 += 1
+                swap(p1, p2)
+            if p2 == right:
+                break
+        swap(left, p1)
+        if p1 != right:
+            p1 += 1
+        if left != p0:
+            sort(left, p0)
+        if p1 != right:
+            sort(p1, right)
+
+    if len(vals) >= 2:
+        sort(0, len(vals) - 1)
+    return swaps[0]
+
+
 class Ref:
     """abstract value of the sixteen variables.  Elements are lists [key?, value?, born] so that
     object identity (`born` = index of the op that created the element object) can be predicted for C05."""
@@ -331,6 +367,13 @@ class Ref:
                 if a[1] >= len(x): return False
                 x[a[1]][0] = a[2]
                 self.assigns = 1
+            elif (op == "sort" and n == 1) or (op == "sortwith" and n == 3):
+                # the nodes stay (same objects: `born` is untouched), the values are exchanged: two assignments per swap call
+                if op == "sortwith" and a[1] > 24: return False
+                vals = [e[0] for e in x]
+                self.assigns = 2 * quicksort_ref(vals, [bool(a[2] >> i & 1) for i in range(a[1])] if op == "sortwith" else [])
+                for e, val in zip(x, vals):
+                    e[0] = val
             else:
                 return False
         # -- Map / MultiMap
@@ -350,7 +393,8 @@ class Ref:
                 put(a[1], a[2])
             elif op == "inserthint" and n == 4:
                 if a[1] > len(x): return False
-                if k == "U" and any(e[0] == a[2] for e in x): return False      # MultiMap: driven only with a fresh key
+                # MultiMap: every case lands where the plain insert does, except: key not below the hinted item and equal to its successor's key
+                if k == "U" and a[1] + 1 < len(x) and x[a[1]][0] <= a[2] and x[a[1] + 1][0] == a[2]: return False
                 put(a[2], a[3])
             elif op == "insertref" and n == 3:
                 if a[2] >= len(x): return False
@@ -444,6 +488,9 @@ class Ref:
                 del x[a[1]]
             elif op == "append2" and n == 3:
                 x.append(self.fresh(a[1] + a[2]))
+            elif op == "appendn" and n == 3:
+                if not 3 <= a[1] <= 7: return False
+                x.append(self.fresh(a[2] + a[1] - 1))
             elif op == "removechain" and n == 3:      # remove(x_i) whose destructor removes x_j: exactly these two go
                 if a[1] >= len(x) or a[2] >= len(x) or a[1] == a[2]: return False
                 for j in sorted((a[1], a[2]), reverse=True):
@@ -552,8 +599,9 @@ def gen_history(rng, length, kinds=KINDS, keys=6, alias=0.3, grow=0.55):
         elif k == "L":
             cs = [f"L.append {v} {nv()}", f"L.prepend {v} {nv()}", f"L.insert {v} {p} {nv()}", f"L.appendref {v} {i}", f"L.prependref {v} {i}",
                   f"L.insertref {v} {p} {i}", f"L.appendlist {v} {w}", f"L.prependlist {v} {w}", f"L.insertlist {v} {p} {w}",
-                  f"L.remove {v} {i}", f"L.removeval {v} {rng.choice([e[0] for e in r.v['L'][v]] or [0])}", f"L.removevalref {v} {i}", f"L.set {v} {i} {nv()}"]
-            ws = [4, 2, 3, 1, 1, 1, 1, 1, 1, 2, 1, 1, 1] if gr else [1, 0, 1, 0, 0, 0, 0, 0, 0, 5, 2, 2, 1]
+                  f"L.remove {v} {i}", f"L.removeval {v} {rng.choice([e[0] for e in r.v['L'][v]] or [0])}", f"L.removevalref {v} {i}", f"L.set {v} {i} {nv()}",
+                  f"L.sort {v}", f"L.sortwith {v} {rng.randrange(1, 25)} {rng.randrange(1 << 24)}"]
+            ws = [4, 2, 3, 1, 1, 1, 1, 1, 1, 2, 1, 1, 1, 0.8, 0.8] if gr else [1, 0, 1, 0, 0, 0, 0, 0, 0, 5, 2, 2, 1, 0.5, 0.5]
             if n > 12: ws[6] = ws[7] = ws[8] = 0
             op = rng.choices(cs, ws)[0]
         elif k in "MU":
@@ -580,7 +628,7 @@ def gen_history(rng, length, kinds=KINDS, keys=6, alias=0.3, grow=0.55):
             op = rng.choices(cs, ws)[0]
         elif k == "P":
             j = rng.randrange(n) if n else 0
-            cs = [f"P.append {v} {nv()}", f"P.append0 {v}", f"P.remove {v} {i}", f"P.removeref {v} {i}", f"P.append2 {v} {nv()} {rng.randrange(3)}",
+            cs = [f"P.append {v} {nv()}", f"P.append0 {v}", f"P.remove {v} {i}", f"P.removeref {v} {i}", rng.choice([f"P.append2 {v} {nv()} {rng.randrange(3)}", f"P.appendn {v} {rng.randrange(3, 8)} {nv()}"]),
                   f"P.removechain {v} {i} {j if j != i else (i + 1) % max(n, 1)}"]
             op = rng.choices(cs, [6, 1, 2, 2, 1, 1.5] if gr else [1, 0, 4, 4, 0, 3])[0]
         else:
@@ -600,17 +648,17 @@ SMALL = {
           "A.set 0 0 7", "A.clear 0", "A.swap 0 1", "A.assign 0 0", "A.assign 0 1", "A.assign 1 0", "A.copy 1 0", "A.new 0", "A.newcap 0 5"],
     "L": ["L.removefront 0", "L.removeback 0", "L.append 0 1", "L.append 0 2", "L.prepend 0 3", "L.insert 0 1 4", "L.appendref 0 0", "L.insertref 0 1 1", "L.appendlist 0 0", "L.prependlist 0 0",
           "L.insertlist 0 1 0", "L.appendlist 0 1", "L.insertlist 1 0 0", "L.remove 0 0", "L.remove 0 1", "L.removeval 0 1", "L.removevalref 0 1", "L.set 0 0 7",
-          "L.clear 0", "L.swap 0 1", "L.assign 0 0", "L.assign 0 1", "L.assign 1 0", "L.copy 1 0", "L.new 0"],
+          "L.clear 0", "L.swap 0 1", "L.assign 0 0", "L.assign 0 1", "L.assign 1 0", "L.copy 1 0", "L.new 0", "L.sort 0", "L.sortwith 0 3 5", "L.sortwith 0 6 42"],
     "M": ["M.removefront 0", "M.removeback 0", "M.insert 0 2 1", "M.insert 0 1 2", "M.insert 0 3 3", "M.insert 0 2 4", "M.inserthint 0 0 0 5", "M.inserthint 0 1 2 6", "M.insertref 0 4 0", "M.insertref 0 2 0",
           "M.insertmap 0 0", "M.insertmap 0 1", "M.insertmap 1 0", "M.remove 0 2", "M.removeat 0 0", "M.removeat 0 1", "M.set 0 0 7", "M.clear 0",
           "M.assign 0 0", "M.assign 0 1", "M.assign 1 0", "M.copy 1 0", "M.new 0"],
-    "U": ["U.removefront 0", "U.removeback 0", "U.insert 0 2 1", "U.insert 0 1 2", "U.insert 0 2 3", "U.insert 0 3 4", "U.insertref 0 2 0", "U.insertref 0 0 1", "U.removeat 0 0", "U.removeat 0 1", "U.remove 0 2", "U.remove 0 1", "U.inserthint 0 0 0 5", "U.inserthint 0 1 4 6",
+    "U": ["U.removefront 0", "U.removeback 0", "U.insert 0 2 1", "U.insert 0 1 2", "U.insert 0 2 3", "U.insert 0 3 4", "U.insertref 0 2 0", "U.insertref 0 0 1", "U.removeat 0 0", "U.removeat 0 1", "U.remove 0 2", "U.remove 0 1", "U.inserthint 0 0 0 5", "U.inserthint 0 1 4 6", "U.inserthint 0 0 2 8", "U.inserthint 0 1 2 9", "U.inserthint 0 2 2 10", "U.inserthint 0 1 1 11", "U.inserthint 0 3 2 12",
           "U.set 0 0 7", "U.clear 0", "U.assign 0 0", "U.assign 0 1", "U.assign 1 0", "U.copy 1 0", "U.copy 0 1", "U.new 0"],
     "H": ["H.removefront 0", "H.removeback 0", "H.append 0 2 1", "H.append 0 1 2", "H.append 0 2 3", "H.prepend 0 3 4", "H.insert 0 1 4 5", "H.appendref 0 5 0", "H.appendref 0 2 1", "H.remove 0 2",
           "H.removeat 0 0", "H.removeat 0 1", "H.set 0 0 7", "H.clear 0", "H.swap 0 1", "H.assign 0 0", "H.assign 0 1", "H.assign 1 0", "H.copy 1 0", "H.new 0", "H.newcap 0 1"],
     "S": ["S.removefront 0", "S.removeback 0", "S.append 0 2", "S.append 0 1", "S.prepend 0 3", "S.insert 0 1 4", "S.appendref 0 0", "S.appendset 0 0", "S.appendset 0 1", "S.appendset 1 0", "S.remove 0 2",
           "S.removeref 0 0", "S.removeset 0 0", "S.removeset 0 1", "S.removeat 0 1", "S.clear 0", "S.swap 0 1", "S.assign 0 0", "S.assign 1 0", "S.copy 1 0", "S.new 0"],
-    "P": ["P.removefront 0", "P.removeback 0", "P.append 0 1", "P.append 0 2", "P.append0 0", "P.remove 0 0", "P.remove 0 1", "P.removeref 0 0", "P.removeref 0 2", "P.clear 0", "P.swap 0 1", "P.append 1 3", "P.new 0", "P.append2 0 1 2", "P.removechain 0 0 1", "P.removechain 0 1 0", "P.removechain 0 0 2"],
+    "P": ["P.removefront 0", "P.removeback 0", "P.append 0 1", "P.append 0 2", "P.append0 0", "P.remove 0 0", "P.remove 0 1", "P.removeref 0 0", "P.removeref 0 2", "P.clear 0", "P.swap 0 1", "P.append 1 3", "P.new 0", "P.append2 0 1 2", "P.appendn 0 3 4", "P.appendn 0 7 5", "P.removechain 0 0 1", "P.removechain 0 1 0", "P.removechain 0 0 2"],
     "Q": ["Q.removefront 0", "Q.removeback 0", "Q.append 0 2 1", "Q.append 0 1 2", "Q.append 0 2 3", "Q.append 0 3 4", "Q.remove 0 2", "Q.removeat 0 0", "Q.removeref 0 1", "Q.clear 0", "Q.swap 0 1", "Q.append 1 5 5",
           "Q.new 0", "Q.newcap 0 1", "Q.prepend 0 4 6", "Q.insert 0 1 5 7", "Q.removechain 0 0 1", "Q.removechain 0 1 0", "Q.removechain 0 2 0"],
 }
@@ -722,6 +770,30 @@ def collision_history(rng, length):
     return h + ["destroyall"]
 
 
+def sort_histories(rng, quick):
+    """List::sort(): every permutation of up to 5 (6 thorough) distinct values, every tuple over three values of length 2..4 under every
+    dictated outcome of the first 5 comparisons (inconsistent comparators included), random longer lists with duplicates and random
+    oracles; each followed by an insertion, a removal and the destructors (the links must be intact)"""
+    hs = []
+    tail = ["L.append 0 99", "L.removefront 0", "L.insert 0 1 98", "destroyall"]
+    for n in range(0, 6 if quick else 7):
+        for perm in itertools.permutations(range(1, n + 1)):
+            hs.append([f"L.append 0 {x}" for x in perm] + ["L.sort 0"] + tail)
+    for n in range(2, 5):
+        for tup in itertools.product((1, 2, 3), repeat=n):
+            for bits in range(32):
+                hs.append([f"L.append 0 {x}" for x in tup] + [f"L.sortwith 0 5 {bits}", "L.sort 0"] + tail[:2] + ["destroyall"])
+    for _ in range(300 if quick else 6000):
+        n = rng.randrange(2, 40)
+        vals = [rng.randrange(rng.choice([3, 10, 1000])) for _ in range(n)]
+        h = [f"L.append 0 {x}" for x in vals]
+        for _ in range(rng.randrange(1, 4)):
+            h.append(rng.choice(["L.sort 0", f"L.sortwith 0 {rng.randrange(1, 25)} {rng.randrange(1 << 24)}", f"L.remove 0 {rng.randrange(n // 2)}",
+                                 f"L.prepend 0 {rng.randrange(10)}", "L.copy 1 0", "L.sort 1", "L.swap 0 1"]))
+        hs.append(h + ["L.sort 0"] + tail)
+    return hs
+
+
 def long_history(rng, length, kinds):
     """C05: long-lived elements - a growth phase, then a long steady phase of mixed insertions / removals, a drain, regrowth"""
     h = gen_history(rng, length // 4, kinds, keys=12, alias=0.1, grow=0.9)[:-1]
@@ -812,6 +884,7 @@ def histories_for(ctx):
     rng.shuffle(deeper)
     ex += deeper[:nsample]
     parts = [("corpus", hs), ("exhaustive", ex), ("collisions", collision_exhaustive() + [collision_history(rng, rng.choice([8, 14, 25])) for _ in range(1500 if quick else 30000)])]
+    parts.append(("sort", sort_histories(rng, quick)))
     if c05:
         longs = [long_history(rng, 300, rng.choice(["L", "M", "U", "H", "S", "P", "Q", "LMUHSPQ", "PQ", "HS", "MU"])) for _ in range(60 if quick else 1500)]
         parts += [("long", longs), ("clients", client_patterns(rng))]
@@ -830,6 +903,7 @@ def histories_for(ctx):
                        + ("" if c05 else f" + Array alias ops (appendref/resizeref/appendptr/appendarr self/assign self) at every size 0..{8 if quick else 12} x 4 ways of reaching the capacity")
                        + f" + {len(rnd)} structured random histories over 2 variables per kind"
                        + f" + {len(dict(parts)['collisions'])} bucket-chain histories on HashMap/HashSet/PoolMap (explicit bucket counts 1..5, different for the two variables, keys of one bucket linked by append/prepend/positional insert in every order, then clear/assign/swap/copy/remove, then re-use of the same keys: an exhaustive family + random ones)"
+                       + f" + {len(dict(parts)['sort'])} List::sort histories (all permutations of <= {5 if quick else 6} values, all tuples over 3 values of length 2..4 x all 32 dictated outcomes of the first 5 comparisons, random longer lists with random comparators)"
                        + f" + {len(dict(parts)['long'])} long histories ({'300' if c05 else '200'} ops, long-lived elements, deep trees)"
                        + (f" + {len(dict(parts)['clients'])} scripted client patterns (Server pools, Future contexts, Callback slots)" if c05 else "")
                        + "; every history ends with destroyall (leak check); distinct_nontrivial = distinct (op-name set, final contents) among histories with >= 3 ops and non-empty final contents")
